@@ -213,10 +213,6 @@ def search(ctx):
     return None
 
 
-def known_signature(f, kf):
-    return kf["id"] == "F-COHERENCE" and not R.coherent(f.case["costs"])
-
-
 def replay_case(payload):
     """relations_big findings: the seven minima recomputed on the stored input"""
     case = payload["case"]
